@@ -229,6 +229,8 @@ func checkC07(c *Ctx, r *Report) {
 
 	r.Rule("R07f", "reflect.Value.IsNil is only called under kind facts that allow it (Chan, Func, Interface, Map, Ptr, Slice, UnsafePointer)", 6)
 	isNilRule(c, r)
+	addressabilityRule(c, r)
+	typeAgreementRule(c, r)
 }
 
 func opKind(in ssa.Instruction) string {
@@ -1076,27 +1078,34 @@ func kindAllowsIsNil(recv ssa.Value, at ssa.Instruction, nilable map[int64]bool)
 		a, b := Sources(v), Sources(recv)
 		return len(a) == 1 && len(b) == 1 && a[0] == b[0]
 	}
-	isKindEq := func(v ssa.Value) (ssa.Value, int64, bool) {
+	// kindTest: v is `x.Kind() == K` or `x.Kind() != K`; returns x, K and whether it is the equality form
+	kindTest := func(v ssa.Value) (ssa.Value, int64, bool, bool) {
 		b, ok := v.(*ssa.BinOp)
-		if !ok || b.Op != token.EQL {
-			return nil, 0, false
+		if !ok || (b.Op != token.EQL && b.Op != token.NEQ) {
+			return nil, 0, false, false
 		}
 		call, ok := b.X.(*ssa.Call)
 		k, isK := ConstInt(b.Y)
 		if !ok || !isK || calledName(call) != "Kind" {
-			return nil, 0, false
+			return nil, 0, false, false
 		}
+		eq := b.Op == token.EQL
 		if call.Call.IsInvoke() {
 			// t.Kind() with t = v.Type(): the kind of the value itself
 			if tc, ok := call.Call.Value.(*ssa.Call); ok && calledName(tc) == "Type" && !tc.Call.IsInvoke() && len(tc.Call.Args) == 1 {
-				return tc.Call.Args[0], k, true
+				return tc.Call.Args[0], k, eq, true
 			}
-			return call.Call.Value, k, true
+			return call.Call.Value, k, eq, true
 		}
-		return call.Call.Args[0], k, true
+		return call.Call.Args[0], k, eq, true
 	}
-	// the call's block must be reachable only through edges where some Kind()==nilable test on the
-	// same receiver was true: check all predecessors chains (short-circuit || builds several)
+	// holds: (cond == truth) implies that the receiver's kind is one of the allowed kinds
+	holds := func(cond ssa.Value, truth bool) bool {
+		rv, k, eq, ok := kindTest(cond)
+		return ok && eq == truth && nilable[k] && sameRecv(rv)
+	}
+	// the call's block must be reachable only through edges on which some kind test on the same
+	// receiver established an allowed kind: check all predecessor chains (short circuits build several)
 	blk := at.Block()
 	var check func(b *ssa.BasicBlock, seen map[*ssa.BasicBlock]bool) bool
 	check = func(b *ssa.BasicBlock, seen map[*ssa.BasicBlock]bool) bool {
@@ -1109,9 +1118,37 @@ func kindAllowsIsNil(recv ssa.Value, at ssa.Instruction, nilable map[int64]bool)
 		}
 		for _, p := range b.Preds {
 			ifi, ok := lastInstr(p).(*ssa.If)
-			if ok && p.Succs[0] == b && p.Succs[0] != p.Succs[1] {
-				if rv, k, okk := isKindEq(ifi.Cond); okk && nilable[k] && sameRecv(rv) {
+			if ok && p.Succs[0] != p.Succs[1] {
+				truth := p.Succs[0] == b
+				if holds(ifi.Cond, truth) {
 					continue
+				}
+				// `ok := a || b` / `a && b`: the branch condition is a boolean phi — an incoming edge can
+				// take this branch only if its value equals `truth`; it must then carry an allowed kind
+				if phi, isPhi := ifi.Cond.(*ssa.Phi); isPhi && phi.Block() == p {
+					all := true
+					for i, e := range phi.Edges {
+						if cv, isC := ConstBool(e); isC {
+							if cv != truth {
+								continue // this edge takes the other branch
+							}
+							q := p.Preds[i]
+							if qi, isIf := lastInstr(q).(*ssa.If); isIf && q.Succs[0] != q.Succs[1] && holds(qi.Cond, q.Succs[0] == p) {
+								continue
+							}
+							if !check(q, seen) {
+								all = false
+							}
+							continue
+						}
+						if holds(e, truth) {
+							continue
+						}
+						all = false
+					}
+					if all {
+						continue
+					}
 				}
 			}
 			// otherwise the predecessor itself must be guarded (and must not redefine the receiver)
